@@ -193,20 +193,17 @@ def gen_unrep_merge(rng):
 
 MERGE_MODES = ["tp", "th", "tj", "ta", "bj", "bb"]
 
-# Input classes on which the unmodified library is known to misbehave (notes/jpatch.md, "Deepening round"); generated only when
-# named in VERIF_JPATCH_OPEN (comma separated, or "all"); then the oracle reports them as violations.
-_open_env = [x for x in os.environ.get("VERIF_JPATCH_OPEN", "").split(",") if x]
-FIXED_CLASSES = ("jsreg-replace-root", "merge-nul-name", "parent-pointers", "jbl-double-text")   # repaired in /repo: always on
-# Round 7 (notes/jpatch.md): reported on the unmodified library, repairs delivered as fixes/jpatch-*.diff, tolerated by default
-# (not generated) until the integrator commits them; VERIF_JPATCH_OPEN=<name,...>|all turns them into judged cases:
-#   merge-subnode        jbn_merge_patch_from_json on a member of a larger tree + non-object patch wipes its name and sibling link
-#   merge-deep-clone     a value nested deeper than JBL_MAX_NESTING_LEVEL in a heap-mode merge: jbn_clone fails, 0 goes to _jbn_add_item
-#   merge-scalar-target  jbl_merge_patch / _jbl on a scalar binary document answers IW_ERROR_INVALID_ARGS (rfc7386: like {})
-#   jsreg-binary-nul     a binary-format registry reloads names / strings with strndup (zero bytes: heap over-read)
+# Input classes on which the library misbehaved before its repairs (notes/jpatch.md); all are repaired in /repo, generated and
+# judged on every run:
+FIXED_CLASSES = ("jsreg-replace-root", "merge-nul-name", "parent-pointers", "jbl-double-text")
+# Round 7 (notes/jpatch.md; e145190, ca7f178, 2599454, 42c947c):
+#   merge-subnode        jbn_merge_patch_from_json on a member of a larger tree + non-object patch wiped its name and sibling link
+#   merge-deep-clone     a value nested deeper than JBL_MAX_NESTING_LEVEL in a heap-mode merge: jbn_clone failed, 0 went to _jbn_add_item
+#   merge-scalar-target  jbl_merge_patch / _jbl on a scalar binary document answered IW_ERROR_INVALID_ARGS (rfc7386: like {})
+#   jsreg-binary-nul     a binary-format registry reloaded names / strings with strndup (zero bytes: heap over-read)
 R7_CLASSES = ("merge-subnode", "merge-deep-clone", "merge-scalar-target", "jsreg-binary-nul")
 OPEN_CLASSES = FIXED_CLASSES + R7_CLASSES
-_open_env = [x for x in os.environ.get("VERIF_JPATCH_OPEN", "").split(",") if x]
-OPEN_ON = set(FIXED_CLASSES) | (set(R7_CLASSES) if "all" in _open_env else set(x for x in _open_env if x in R7_CLASSES))
+OPEN_ON = set(OPEN_CLASSES)
 
 
 def set_at(doc, segs, f):
@@ -296,7 +293,9 @@ def check(run):
             if not l or l.startswith("#"):
                 continue
             r = json.loads(l)
-            if "path" in r:
+            if "kind" in r:        # a directed case of one of the generator kinds, as the generators build it
+                cases.append(dict({k: v for k, v in r.items() if k != "note"}, origin="corpus"))
+            elif "path" in r:
                 cases.append({"kind": "mpath", "doc": r["doc"], "path": r["path"], "val": r.get("val", MISSING)})
             elif "patch_text" in r:
                 cases.append({"kind": "badtext", "doc": r["doc"], "patch_text": r["patch_text"]})
@@ -756,8 +755,8 @@ def check(run):
                                    "member names within one object are distinct",
                                    "iwjsreg_replace is compared with the oracle only (remove the addressed member, then MergePatch with "
                                    "the wrapper) and only on paths through object members; replacing the whole registry (path \"\") "
-                                   "crashes the unmodified library (use after free, fixes/jpatch-jsreg-replace-root.diff) and is generated "
-                                   "only with VERIF_JPATCH_OPEN=jsreg-replace-root|all; enabled now: %s" % (", ".join(sorted(OPEN_ON)) or "none"),
+                                   "crashed the library before its repair (use after free, fixes/jpatch-jsreg-replace-root.diff); all repaired "
+                                   "classes are generated and judged on every run: %s" % ", ".join(sorted(OPEN_ON)),
                                    "binary-form modes, MergePatch result not storable in the binary form (result:unrepresentable): the "
                                    "call must report JBL_ERROR_CREATION and leave the binary document byte for byte as it was (success is "
                                    "accepted only with exactly the RFC result); a target / patch document that is itself not storable must "
